@@ -21,6 +21,7 @@ import (
 type MCmd struct {
 	Kind       string    // track, start, stop, switch, pause, create
 	Date       *ref.Date // --date
+	DateSlash  bool      // --date typed as YYYY/MM/DD
 	DateFlag   string    // "", today, yesterday, tomorrow
 	Time       *ref.TimeV
 	TimeText   string   // spelling of --time
@@ -102,7 +103,7 @@ func (c MCmd) Args() []string {
 		a = append(a, esc(joinLines(c.Entry)))
 	}
 	if c.Date != nil {
-		a = append(a, "--date", ref.FormatDate(*c.Date, true))
+		a = append(a, "--date", ref.FormatDate(*c.Date, !c.DateSlash))
 	}
 	if c.DateFlag != "" {
 		a = append(a, "--"+c.DateFlag)
@@ -155,6 +156,11 @@ func (c MCmd) build(file string) (cmd runner, decodeErr string) {
 	at := util.AtDateArgs{Today: c.DateFlag == "today", Yesterday: c.DateFlag == "yesterday", Tomorrow: c.DateFlag == "tomorrow"}
 	if c.Date != nil {
 		at.Date = kdate(c.Date.Y, c.Date.M, c.Date.D)
+		if c.DateSlash {
+			if dd, derr := klog.NewDateFromString(ref.FormatDate(*c.Date, false)); derr == nil {
+				at.Date = dd
+			}
+		}
 	}
 	att := util.AtDateAndTimeArgs{AtDateArgs: at}
 	if c.Time != nil {
